@@ -30,6 +30,7 @@ type scenario struct {
 	Perm       int      `json:"perm"`    // which real node plays n2 / n3
 	PrevRound1 bool     `json:"prevRound1"`
 	Trie       bool     `json:"trie"`
+	Txs        int      `json:"txs,omitempty"`    // transfers offered for the target block (default 2; several hundred make a multi-part block)
 	Tamper     string   `json:"tamper,omitempty"` // negative control: falsify one observation
 }
 
@@ -42,7 +43,11 @@ func (s scenario) String() string {
 			ch += "t"
 		}
 	}
-	return fmt.Sprintf("%s@h%d/%s/p%d/r1=%v/trie=%v", strings.Join(s.Names, "+"), s.H, ch, s.Perm, s.PrevRound1, s.Trie)
+	d := fmt.Sprintf("%s@h%d/%s/p%d/r1=%v/trie=%v", strings.Join(s.Names, "+"), s.H, ch, s.Perm, s.PrevRound1, s.Trie)
+	if s.Txs > 0 {
+		d += fmt.Sprintf("/txs=%d", s.Txs)
+	}
+	return d
 }
 
 type stepRec struct {
@@ -77,7 +82,13 @@ type outcome struct {
 	ValidateErr string    `json:"validateErr"` // clause the real ValidateBlock reports for B
 	ModelErr    string    `json:"modelErr"`    // clause the model says validateBlock reports
 	BadHash     string    `json:"badHash"`
-	Valid       bool      `json:"valid"` // B is fully valid by construction (class none)
+	PrevRound   int       `json:"prevRound"` // round in which the previous block was decided
+	HonestTxs   int       `json:"honestTxs"` // transactions in the honestly built block
+	Parts       int       `json:"parts"`     // parts the Byzantine block was split into
+	EdgeIdx     []int     `json:"edgeIdx"`   // edges of the AsRequired graph this behaviour followed
+	AsCoded     string    `json:"asCoded"`   // "" (not evaluated) | "conforms" | first mismatch with the AsCoded graph
+	AsCodedN    int       `json:"asCodedN"`  // steps compared with the AsCoded graph
+	Valid       bool      `json:"valid"`     // B is fully valid by construction (class none)
 }
 
 var errClauses = []struct {
@@ -125,7 +136,8 @@ func (w *world) realValidate() (clause string) {
 }
 
 type graphIndex struct {
-	g *mbt.Graph
+	g       *mbt.Graph
+	classes map[string]bool // block classes the exported model has
 }
 
 type modelAct struct {
@@ -160,22 +172,57 @@ func (gi *graphIndex) next(cur int, op, n string, r int, cls string) (int, *mode
 
 var nodeNames = []string{"n1", "n2", "n3"}
 
+// walk follows the recorded steps through this graph, comparing the whole node records.
+func (gi *graphIndex) walk(steps []stepRec, cls string) (string, int) {
+	cur := 0
+	for k, st := range steps {
+		ei, _ := gi.next(cur, st.Op, st.N, st.R, cls)
+		if ei < 0 {
+			return fmt.Sprintf("step %d %s(%s,%d) is not allowed by the AsCoded model", k+1, st.Op, st.N, st.R), k
+		}
+		var ms modelState
+		json.Unmarshal(gi.g.Edges[ei].ToSt, &ms)
+		cur = gi.g.Edges[ei].To
+		for _, nn := range nodeNames {
+			m, o := ms.Node[nn], st.Obs[nn]
+			d := diffProp(m, o)
+			if d == "" {
+				d = diffShape(m, o)
+			}
+			if d == "" && m.Restarts != o.Restarts {
+				d = fmt.Sprintf("restarts: model %d, node %d", m.Restarts, o.Restarts)
+			}
+			if d != "" {
+				return fmt.Sprintf("step %d %s(%s,%d): node %s: %s", k+1, st.Op, st.N, st.R, nn, d), k
+			}
+		}
+	}
+	return "conforms", len(steps)
+}
+
 // modelClass maps the declared clause vector to a class the exported model has: the
 // model enumerates classes of up to three clauses; a larger vector is represented by its
 // first three clauses (under the required guard every non-empty class behaves alike).
-func modelClass(flags []string) string {
-	f := append([]string{}, flags...)
-	sort.Strings(f)
-	if len(f) > 3 {
-		f = f[:3]
+func (gi *graphIndex) modelClass(flags []string) string {
+	// keep the clauses that decide the behaviour under either guard: app, ev, then validateBlock's order
+	prio := map[string]int{"app": 0, "ev": 1}
+	for i, c := range validateOrder {
+		prio[c] = 2 + i
 	}
-	return className(f)
+	f := append([]string{}, flags...)
+	sort.Slice(f, func(i, j int) bool { return prio[f[i]] < prio[f[j]] })
+	for n := len(f); n > 0; n-- {
+		if gi.classes[className(f[:n])] {
+			return className(f[:n])
+		}
+	}
+	return className(nil)
 }
 
 const maxRound = 1
 
 // play executes one behaviour.
-func play(sc scenario, gi *graphIndex, kw *killWatch, dir string) (out outcome) {
+func play(sc scenario, gi, coded *graphIndex, kw *killWatch, dir string) (out outcome) {
 	out.Scenario, out.Desc = sc, sc.String()
 	defer func() {
 		if r := recover(); r != nil {
@@ -206,11 +253,11 @@ func play(sc scenario, gi *graphIndex, kw *killWatch, dir string) (out outcome) 
 			return
 		}
 	}
-	if n, _ := kw.collect(); n > 0 {
+	if n, _ := kw.collect(0); n > 0 {
 		out.Infra = fmt.Sprintf("%d kill requests while the correct cluster ran to height %d", n, sc.H-1)
 		return
 	}
-	if err := w.takeOver(sc.H, []int{sc.Perm}); err != nil {
+	if err := w.takeOver(sc.H, []int{sc.Perm}, sc.Txs); err != nil {
 		out.Infra = err.Error()
 		return
 	}
@@ -219,6 +266,14 @@ func play(sc scenario, gi *graphIndex, kw *killWatch, dir string) (out outcome) 
 		out.Infra = "honest block does not decode: " + err.Error()
 		return
 	}
+	if sc.H > 1 {
+		out.PrevRound = blk.LastCommit.Round()
+		if sc.PrevRound1 && out.PrevRound != 1 {
+			out.Infra = fmt.Sprintf("the previous block was meant to be decided in round 1 but was decided in round %d", out.PrevRound)
+			return
+		}
+	}
+	out.HonestTxs = len(blk.Data.Txs)
 	if err := apply(w, blk); err != nil {
 		out.Skipped = err.Error()
 		return
@@ -228,13 +283,17 @@ func play(sc scenario, gi *graphIndex, kw *killWatch, dir string) (out outcome) 
 		return
 	}
 	out.BadHash = fmt.Sprintf("%x", w.badID.Hash[:6])
+	out.Parts = w.badParts.Total()
 	out.ValidateErr = w.realValidate()
 
 	// ---- follow the model -------------------------------------------------------------
 	cur := 0
 	following := gi != nil && !probe
 	out.Conforms = following
-	mcls := modelClass(flags)
+	mcls := ""
+	if gi != nil {
+		mcls = gi.modelClass(flags)
+	}
 	step := func(op string, k int, r int, f func()) bool {
 		name := "-"
 		if k >= 0 {
@@ -270,12 +329,13 @@ func play(sc scenario, gi *graphIndex, kw *killWatch, dir string) (out outcome) 
 				out.Divergence = fmt.Sprintf("step %d: the real nodes take step %s(%s,%d) which the model does not allow here", out.NSteps, op, name, r)
 				rec.Note = out.Divergence
 			} else {
-				if op == "byzPropose" {
+				if op == "byzPropose" && className(act.Cls) == className(flags) {
 					out.ModelErr = act.Verr
 				}
 				var ms modelState
 				json.Unmarshal(gi.g.Edges[ei].ToSt, &ms)
 				cur = gi.g.Edges[ei].To
+				out.EdgeIdx = append(out.EdgeIdx, ei)
 				for _, nn := range nodeNames {
 					m, o := ms.Node[nn], rec.Obs[nn]
 					if d := diffProp(m, o); d != "" {
@@ -358,6 +418,35 @@ func play(sc scenario, gi *graphIndex, kw *killWatch, dir string) (out outcome) 
 		}
 	}
 
+	// ---- a killed node is started again (twice): does the stored block apply now? -------
+	restartNote := map[string][]string{}
+	for k, nn := range nodeNames {
+		i := w.honest[k]
+		for try := 0; try < 2 && obs(k).Killed && !obs(k).Applied; try++ {
+			kk, name := k, nn
+			if !step("restart", k, obs(k).Round, func() {
+				w.restarts[i]++
+				applied, err := w.restart(i)
+				switch {
+				case err != nil:
+					restartNote[name] = append(restartNote[name], fmt.Sprintf("%s: restart fails: %v", name, firstLine(err.Error())))
+				case applied:
+					w.reapplied[i] = true
+					restartNote[name] = append(restartNote[name], name+": restart applies the stored block")
+				default:
+					restartNote[name] = append(restartNote[name], name+": restart leaves the status behind")
+				}
+				_ = kk
+			}) {
+				return
+			}
+		}
+	}
+	// ---- the tree as it is: does the behaviour follow the AsCoded graph? (pi_shape) -------
+	if !out.Conforms && coded != nil && !probe {
+		out.AsCoded, out.AsCodedN = coded.walk(out.Steps, coded.modelClass(flags))
+	}
+
 	// ---- the property, read off the real nodes ----------------------------------------
 	out.Deliveries = w.steps
 	out.AllApplied, out.GoodStored = true, true
@@ -383,15 +472,7 @@ func play(sc scenario, gi *graphIndex, kw *killWatch, dir string) (out outcome) 
 		}
 		if o.Killed {
 			out.Killed = append(out.Killed, nn)
-			applied, err := w.restart(i)
-			switch {
-			case err != nil:
-				out.Restart = append(out.Restart, fmt.Sprintf("%s: restart fails: %v", nn, firstLine(err.Error())))
-			case applied:
-				out.Restart = append(out.Restart, nn+": restart applies the stored block")
-			default:
-				out.Restart = append(out.Restart, nn+": restart leaves the status behind")
-			}
+			out.Restart = append(out.Restart, restartNote[nn]...)
 		}
 		if f := w.cl.Nodes[i].Failure; f != nil {
 			out.Failed = append(out.Failed, fmt.Sprintf("%s: %s", nn, firstLine(fmt.Sprint(f))))
